@@ -23,7 +23,15 @@ MethodIdx == {<<IdxT(TypeLit(<<Method("mm", FALSE), Prop("j", "ident", FALSE, Nu
               <<IdxT(Ref("IM", <<>>), UnionT(<<LitT("str", "mm"), LitT("str", "j")>>)), <<Interface("IM", <<>>, <<Method("mm", FALSE), Prop("j", "ident", FALSE, Num)>>)>>>>,
               <<IdxT(TypeLit(<<Method("mm", TRUE)>>), Kw("string")), <<>>>>,
               <<IdxT(Ref("AM", <<>>), LitT("str", "g")), <<Alias("AM", TypeLit(<<Getter("g", Str), Method("mm", FALSE)>>))>>>>}
-Base == {<<a, <<>>>> : a \in Atoms} \cup MethodIdx
+NullFirst == {<<Ref("NonNullable", <<UnionT(<<Kw("null"), Str, Boo>>)>>), <<>>>>,
+              <<Ref("NonNullable", <<UnionT(<<Kw("null"), Boo, Str>>)>>), <<>>>>,
+              <<Ref("NonNullable", <<UnionT(<<Kw("null"), Str, Num, Boo>>)>>), <<>>>>,
+              <<Ref("NonNullable", <<Ref("NN", <<>>)>>), <<Alias("NN", UnionT(<<Kw("null"), Str, Kw("null"), Boo, FnT>>))>>>>,
+              <<UnionT(<<Str, Str, Boo, Str>>), <<>>>>, <<UnionT(<<Boo, Kw("null"), Str, Boo>>), <<>>>>,
+              <<IdxT(TupleT(<<Boo, Str>>), Kw("number")), <<>>>>, <<IdxT(TupleT(<<Str, Boo, Num>>), LitN(0)), <<>>>>,
+              <<IdxT(TupleT(<<Str, Boo, Num>>), LitN(2)), <<>>>>, <<IdxT(ArrT(UnionT(<<Boo, Str>>)), LitN(0)), <<>>>>,
+              <<ArrT(UnionT(<<Boo, Str>>)), <<>>>>}
+Base == {<<a, <<>>>> : a \in Atoms} \cup MethodIdx \cup NullFirst
         \cup {<<Ref("IObj", <<>>), <<Interface("IObj", <<>>, <<Prop("foo", "ident", FALSE, Str)>>)>>>>,
               <<Ref("IFn", <<>>), <<Interface("IFn", <<>>, <<CallSig(Str)>>)>>>>,
               <<Ref("IEmpty", <<>>), <<Interface("IEmpty", <<>>, <<>>)>>>>}
